@@ -277,3 +277,8 @@ Proof. vm_compute. reflexivity. Qed.
 Theorem batcher_users_classified :
   forallb (fun u => str_in u elementwise_batcher_users || str_in u contraction_batcher_users) BATCHER_USERS = true.
 Proof. vm_compute. reflexivity. Qed.
+
+(* the helper of the CURRENT source is the repaired one (new axes right after the batch axis = Batch.batcher_fixed);
+   a tree whose helper is textually the historical one (or anything else) breaks this proof *)
+Theorem current_batch_helper_is_repaired : hsb_source_variant = "after_batch"%string /\ batcher_shape_checked = true.
+Proof. split; reflexivity. Qed.
